@@ -299,6 +299,135 @@ def entry_methods(F, CG, state_adt, with_wrappers=True):
     return out
 
 
+def entry_contexts(F, CG):
+    """fn path -> {param name: (state field, frozenset(variants))}: for a state method that is handed the caller's own
+    node, the poll states the node can be in at the call, read off every calling context (all functions outside the
+    state layer from which the method is reachable, run from the outermost ones with the chain inlined).  Only a
+    restriction to *unlinked* states is kept: an unlinked node is reachable by nobody else, so what the caller knew
+    about it - even before it took the lock, even under an earlier acquisition - still holds at the call.  The engine
+    assumes it at entry (Engine.run), so a helper such as `add_waiter(node)` that a wrapper calls only for New nodes
+    is judged for New nodes.  No context found / a linked state possible => no restriction."""
+    if hasattr(F, 'entry_ctx') and F.entry_ctx is not None:
+        return F.entry_ctx
+    F.entry_ctx = {}
+    from engine import Engine
+    from specs import TYPESTATE
+    from typestate import _own_nodes
+    roles = Roles(F)
+    states = sorted(roles.state_structs)
+    layer = state_layer(F, CG, states)
+    E = Engine(F)
+    out = {}
+    runs = {}
+    for sp in states:
+        table = TYPESTATE.get(sp) or {}
+        queues = roles.state_structs[sp]['queues']
+        data_to_queue = {d: q for q, (_k, d) in queues.items()}
+        for m in entry_methods(F, CG, sp, with_wrappers=False):
+            own = {}
+            for name, d in _own_nodes(F, m).items():
+                q = data_to_queue.get(d)
+                sf = roles.node_data.get(d, {}).get('state_field')
+                if q in table and sf:
+                    own[name] = (d, q, sf)
+            if not own:
+                continue
+            # calling functions outside the state layer, transitively; the outermost ones are the roots
+            seen, work, roots = set(), [m['path']], set()
+            while work:
+                p = work.pop()
+                if p in seen:
+                    continue
+                seen.add(p)
+                cs = [c for c, _ in CG.callers_of(p) if c != p and c not in layer]
+                fn_p = F.fn(p) or {}
+                exposed = p != m['path'] and (not cs or fn_p.get('reachable') or fn_p.get('impl_trait'))
+                if exposed:
+                    roots.add(p)
+                work.extend(cs)
+            if not roots:
+                continue
+            names = {}
+            for d_ in m['debug']:
+                if not d_['place']['p']:
+                    names.setdefault(d_['place']['l'], d_['name'])
+            idx = {names.get(i, 'arg%d' % i): i - 1 for i in range(1, m['arg_count'] + 1)}
+            allowed = {name: set() for name in own}
+            unknown = set()
+            entered = 0
+            for r in sorted(roots):
+                if r not in runs:
+                    saved = set(F.alias_fns)
+                    F.alias_fns.discard(r)
+                    try:
+                        runs[r] = E.run(r)
+                    finally:
+                        F.alias_fns.update(saved)
+                for path in runs[r]:
+                    for i, e in enumerate(path.events):
+                        if e['k'] != 'enter' or e['fn'] != m['path'] or i == 0:
+                            continue
+                        entered += 1
+                        for name, (d, q, sf) in own.items():
+                            a = e['args'][idx[name]] if idx.get(name) is not None and idx[name] < len(e['args']) else None
+                            if a is None or a[0] != 'ref':
+                                unknown.add(name)
+                                continue
+                            sloc = a[1] + ('data', sf)
+                            enum = roles.node_data[d]['state_enum']
+                            vs = None
+                            for e2 in reversed(path.events[:i]):
+                                if e2['k'] in ('write', 'replace') and e2.get('loc') == sloc:
+                                    v = e2.get('val')
+                                    var = v[2] if v and v[0] == 'agg' else (v[1] if v and v[0] == 'aggv' else None)
+                                    vs = {var} if var else None
+                                    if var is None:
+                                        unknown.add(name)
+                                    break
+                                if e2['k'] == 'call' and e2.get('mode') == 'opaque' and any(
+                                        x[0] == 'ref' and x[1][:len(a[1])] == a[1] for x in e2.get('args', ())):
+                                    unknown.add(name)   # handed to code the engine does not see
+                                    break
+                            else:
+                                k0 = path.facts.get(('discr', ('init', sloc)))
+                                allv = list(E.variants_of(enum))
+                                # where was the node's state looked at?  Without the lock only the state of a node
+                                # that was never queued is a stable observation (another task may be in the middle
+                                # of the transition that writes any other state)
+                                first_lock = next((j for j, e3 in enumerate(path.events[:i]) if e3['k'] == 'lock'), None)
+                                needle = repr(('init', sloc))
+                                looks = [j for j, e3 in enumerate(path.events[:i])
+                                         if e3['k'] == 'assume' and needle in repr(e3.get('expr'))]
+                                if looks and (first_lock is None or looks[0] < first_lock):
+                                    initial = list(table[q])[0]
+                                    if not (k0 and k0[0] == 'eq' and k0[1] == initial):
+                                        k0 = None
+                                if k0 and k0[0] == 'eq':
+                                    vs = {k0[1]}
+                                elif k0:
+                                    vs = set(v for v in allv if v not in k0[1])
+                                else:
+                                    vs = set(allv)
+                            if vs:
+                                allowed[name] |= vs
+            if not entered:
+                continue
+            ctx = {}
+            for name, (d, q, sf) in own.items():
+                enum = roles.node_data[d]['state_enum']
+                allv = set(E.variants_of(enum))
+                vs = allowed[name]
+                if name in unknown or not vs or vs >= allv:
+                    continue
+                if any(table[q].get(v) is not False for v in vs):
+                    continue    # a linked state: others can change it between the caller's test and the call
+                ctx[name] = (sf, enum, frozenset(vs))
+            if ctx:
+                out[m['path']] = ctx
+    F.entry_ctx = out
+    return out
+
+
 # ------------------------------------------------------------ path queries
 def fields_of(loc):
     """field names of an access path (the intrusive node's `data` hop and downcasts are transparent)"""
